@@ -819,6 +819,8 @@ static void strip_c1(CPS &v) { for (auto &c : v) if (is_c1(c)) { count_excluded(
 } // namespace gg
 
 // ================================================================================================ case builders (inside rapidcheck)
+// like g::chance, but shrinks towards "no" (g::chance shrinks towards "yes"): for options that make a case bigger
+static bool rare(int pct) { return *g::range(0, 99) >= 100 - pct; }
 static int cplen(const ustr &s) { int n = 0; for (char16_t c : s) if (!(c >= 0xDC00 && c <= 0xDFFF)) n++; return n; }
 static bool differ_case_and_form(const ustr &a, const ustr &b) { return cm::nfd(a) != cm::nfd(b) && gg::str_map(a, 2) != gg::str_map(b, 2); }
 // pad three spellings with ASCII so that the longest reaches `target` code points (b gets the pad in upper case)
@@ -831,8 +833,8 @@ static void pad3(ustr &a, ustr &b, ustr &n, int target, bool upper_b) {
 }
 static CaseFile build_norm() {
     CPS ca = gg::core(6); gg::strip_c1(ca);
-    if (*g::chance(10)) { ca.insert(ca.begin() + *g::range(0, (int) ca.size()), *gg::of({0x20, 0x9, 0xA, 0xD, 0x7F, 0x1, 0xFEFF, 0xFFFD})); }   // cif_normalize takes any text
-    if (*g::chance(8)) { CPS one = ca; int rep = *g::range(2, 120); for (int i = 0; i < rep; i++) ca.insert(ca.end(), one.begin(), one.end()); }   // long: buffer growth paths
+    if (rare(10)) { ca.insert(ca.begin() + *g::range(0, (int) ca.size()), *gg::of({0x20, 0x9, 0xA, 0xD, 0x7F, 0x1, 0xFEFF, 0xFFFD})); }   // cif_normalize takes any text
+    if (rare(8)) { CPS one = ca; int rep = *g::range(2, 120); for (int i = 0; i < rep; i++) ca.insert(ca.end(), one.begin(), one.end()); }   // long: buffer growth paths
     ustr a = from_cps(ca), na = cm::norm_name(a);
     ustr b = gg::variant(a, 0, true, [&](const ustr &s) { return cm::norm_name(s) == na; });
     ustr n = gg::near_miss(a, 0, [&](const ustr &s) { return cm::norm_name(s) != na; });
@@ -848,7 +850,7 @@ static CaseFile build_lookup() {
     auto ok = [&](const ustr &s) { return (item ? name_verdict(s) : code_verdict(s)) == V_OK; };
     ustr b = gg::variant(a, from, true, [&](const ustr &s) { return ok(s) && cm::norm_name(s) == na; });
     ustr n = gg::near_miss(a, from, [&](const ustr &s) { return ok(s) && cm::norm_name(s) != na; });
-    if (*g::chance(6)) {
+    if (rare(6)) {
         pad3(a, b, n, (item ? 2048 : 2043) - *g::range(0, 2), *g::chance(70));
         int excess = 0; for (const ustr *s : {&a, &b, &n}) excess = std::max(excess, cplen(cm::norm_name(*s)) - 2048);
         if (item && excess > 0) { count_excluded("F-NORMLEN"); for (ustr *s : {&a, &b, &n}) s->resize(s->size() - (size_t) excess); }   // the tail is ASCII padding
@@ -858,7 +860,7 @@ static CaseFile build_lookup() {
 }
 static CaseFile build_keys() {
     CPS ca;
-    if (!*g::chance(4)) {
+    if (*g::range(0, 99) >= 4) {
         ca = gg::core(4); gg::strip_c1(ca);
         int ws = *g::range(0, 2);
         for (int i = 0; i < ws; i++) ca.insert(ca.begin() + *g::range(0, (int) ca.size()), *gg::of({0x20, 0x20, 0x9, 0xA, 0xD}));
@@ -1006,9 +1008,9 @@ int main(int argc, char **argv) {
         const char *only_env = getenv("C09_ONLY"); std::string only = only_env ? only_env : "";   // debugging aid: run one sub-property
         auto want = [&](const char *m) { return only.empty() || only == m; };
         if (want("norm")) ok = check_n("C09(1) cif_normalize: idempotent, equal on equivalent / different on inequivalent spellings, equal to the independent pipeline, srclen", 8, 0, []() { drive(build_norm()); }) && ok;
-        if (want("lookup")) ok = check_n("C09(2) blocks, frames, items and packet items are found / duplicate / removable under exactly the equivalent spellings", 2, 1, []() { drive(build_lookup()); }) && ok;
-        if (want("keys")) ok = check_n("C09(3) table keys match by canonical equivalence only and enumerate in the most recently set spelling", 4, 2, []() { drive(build_keys()); }) && ok;
-        if (want("valid")) ok = check_n("C09(4) names, codes and keys are accepted exactly when valid, else refused with the documented code", 2, 3, []() { drive(build_valid()); }) && ok;
+        if (ok && want("lookup")) ok = check_n("C09(2) blocks, frames, items and packet items are found / duplicate / removable under exactly the equivalent spellings", 2, 1, []() { drive(build_lookup()); }) && ok;
+        if (ok && want("keys")) ok = check_n("C09(3) table keys match by canonical equivalence only and enumerate in the most recently set spelling", 4, 2, []() { drive(build_keys()); }) && ok;
+        if (ok && want("valid")) ok = check_n("C09(4) names, codes and keys are accepted exactly when valid, else refused with the documented code", 2, 3, []() { drive(build_valid()); }) && ok;
         if (ok && want("sweep")) ok = run_sweeps();
         return ok;
     };
